@@ -51,9 +51,12 @@ func vhBuild(n int, k int) (*PatchSet, []vhRange) {
 	pos := int64(0)
 	np := vhInt("npatches", 0, k)
 	for i := 0; i < np; i++ {
-		off := int64(vhConcretize(vhInt("off", 0, n), 8))
-		old := int64(vhConcretize(vhInt("old", 0, n), 8))
-		vhAssume(off >= pos && off+old <= int64(n))
+		// constrain first, then enumerate: only feasible (off, old) pairs fork
+		offS, oldS := vhInt("off", 0, n), vhInt("old", 0, n)
+		vhAssume(int64(offS) >= pos)
+		vhAssume(offS+oldS <= n)
+		off := int64(vhConcretize(offS, 8))
+		old := int64(vhConcretize(oldS, 8))
 		blob := vhBytes("blob", vhInt("bloblen", 0, 2))
 		p.Add(off, old, blob)
 		rs = append(rs, vhRange{off, old, blob})
